@@ -20,8 +20,11 @@ SHAPES = {
     "!(A)-1025": ("object", [([b"z" * 1025], 0)]),
     "$(A|B)": ("stdout", [([b"a\n", b"b\n"], 0), ("pass", 0)]),
     "!(A|B)-early": ("object", [([b"a\n", b"b\n", b"c\n"], 0), ("head1", 4)]),
+    # two commands back to back: helper threads of the first may still be closing their pipe ends
+    # while the second creates its pipes (fd numbers are recycled at once)
+    "$(A);$(A)": ("stdout2", [([b"one\n"], 0)]),
 }
-QUICK = ["$(A)-two-chunks", "!(A)-two-chunks", "$(A|B)"]
+QUICK = ["$(A)-two-chunks", "!(A)-two-chunks", "$(A|B)", "$(A);$(A)"]
 
 _SHAPE = None
 _XSH = None
@@ -127,7 +130,11 @@ def _body(s):
         if i:
             cmds.append("|")
         cmds.append([n])
-    if kind == "stdout":
+    if kind == "stdout2":
+        out1 = subproc_captured_stdout(*cmds)
+        out2 = subproc_captured_stdout(*cmds)
+        res = {"out": out1 + "|" + out2, "rtn": _XSH.lastcmd.rtn if getattr(_XSH, "lastcmd", None) is not None else None}
+    elif kind == "stdout":
         out = subproc_captured_stdout(*cmds)
         rtn = _XSH.lastcmd.rtn if getattr(_XSH, "lastcmd", None) is not None else None
         res = {"out": out, "rtn": rtn}
@@ -161,8 +168,10 @@ def _check(r, prefix):
     stages = SHAPES[_SHAPE][1]
     if len(stages) == 1:
         want = exp.replace("\r\n", "\n").replace("\r", "\n")
-        if kind == "stdout" and want.endswith("\n") and want.count("\n") == 1:
+        if kind in ("stdout", "stdout2") and want.endswith("\n") and want.count("\n") == 1:
             want = want[:-1]
+        if kind == "stdout2":
+            want = want + "|" + want
         if out != want:
             V(f"output-differs:{kind}:{'lost' if len(out or '') < len(want) else 'extra'}", "captured output is exactly what the command wrote", out, want)
         if kind == "object" and v.get("raw") is not None and v["raw"] != data:
